@@ -94,7 +94,7 @@ def main():
             ck.fail("mass-share-differs", inp, f"selection probabilities {p}, mean molecule masses {mbar} (sampled): mass shares {share} instead of {declared}")
     # ---- one LARGE ensemble (more than a thousand members) through System.generator: every member's component is picked under the declared
     # law, the first as well as the 1500th (decided at the rng.choice interface, call by call)
-    for text, M in [("CCF.|15.0%|CCCl.|25.0%|CCBr.|60.0%|", 130000.0)] + ([] if quick else [("COC.|70.0%|CCO.|30.0%|", 70000.0)]):
+    for text, M in [("CCF.|15.0%|CCCl.|25.0%|CCBr.|60.0%|", 130000.0), ("CCF.|20.0%|CCCl.|30.0%|CCBr", 40000.0)] + ([] if quick else [("COC.|70.0%|CCO.|30.0%|", 70000.0), ("CCO.|30.0%|CCCCS.|50.0%|COC", 50000.0)]):
         system = sysrun.parse_system(text, M)
         if system is None or not system.generable:
             ck.note(f"large-ensemble system not generable: {text}")
@@ -120,6 +120,21 @@ def main():
         else:
             if covered < len(members):
                 ck.fail("component-pick-not-under-the-declared-law", inp, f"{len(members)} members but only {covered} component picks under the declared law were observed")
+            else:
+                # ... and from the generated masses: the k-th member IS a molecule of the component picked for it (plain components: exact mass),
+                # so the realised mass of a component is (number of its picks) x (its molecule mass) — the quantity the share formula is about
+                exact = [mean_mass(m, 1, 0) for m in system._molecules]
+                seq = [int(i) for (_, a, p, r) in picks for i in (r if isinstance(r, list) else [r])]
+                if all(ex for _, ex in exact):
+                    for k, mem in enumerate(members):
+                        if not close(float(mem.weight), exact[seq[k]][0], 1e-9):
+                            realised = [sum(float(x.weight) for x in members if close(float(x.weight), e[0], 1e-9)) for e in exact]
+                            tot = sum(float(x.weight) for x in members)
+                            ck.fail("member-is-not-a-molecule-of-the-picked-component", inp,
+                                    f"member #{k} was picked as component {seq[k]} (molecule mass {exact[seq[k]][0]}) but weighs {float(mem.weight)}; realised mass shares "
+                                    f"{[round(x / tot, 4) for x in realised]}, declared {[round(x, 4) for x in declared]}")
+                            break
+                    ck.count("large-ensemble-members-identified", len(members))
     ck.rule = ("one case = one two- to four-component system (components differ in molecule mass by factors 1-100); the selection probabilities are read off "
                "the rng.choice call of the component pick, mean molecule masses are exact (plain molecules) or sampled; share formula from C14_share")
     ck.extra["assumptions"] = ["renewal-reward theorem (expected mass per pick -> almost sure long-run share) is cited, not formalised (C14_partial)"]
